@@ -190,6 +190,21 @@ func (c *ScalarCase) leadFields() []desc.F {
 	if c.Lead == "plain" || c.Lead == "all" {
 		fs = append(fs, desc.F{Name: "Z0", T: desc.Scalar("string")})
 	}
+	if (c.Lead == "sub" || c.Lead == "psub") && !c.callFn("exist") {
+		// a populated sub-object under a marker of nested validation, declared before our field (it has no rules of
+		// its own: the descent into it reports nothing and leaves our field's rules alone)
+		inner := desc.T{K: "struct", Fields: []desc.F{{Name: "N", T: desc.Scalar("int")}, {Name: "S", T: desc.Scalar("string")}}}
+		if c.Lead == "sub" {
+			fs = append(fs, desc.F{Name: "Sub0", T: inner, Tags: map[string]string{"valid": "exist"}})
+		} else {
+			mark := "required"
+			if c.callFn("required") {
+				mark = "exist" // (a function of the call named required stands for the marker too: C16's subject)
+			}
+			fs = append(fs, desc.F{Name: "Sub0", T: desc.Ptr(inner), Tags: map[string]string{"valid": mark}},
+				desc.F{Name: "Subs0", T: desc.Slice(inner), Tags: map[string]string{"valid": "exist"}})
+		}
+	}
 	if c.Lead == "wide" {
 		// our field is the 261st of its struct (whatever indexes fields in a byte wraps around)
 		for i := 0; i < 260; i++ {
@@ -211,6 +226,19 @@ func (c *ScalarCase) fillLead(st reflect.Value) {
 		for i := 0; i < 260; i++ {
 			st.Field(i).SetString("w")
 		}
+	}
+	if f := st.FieldByName("Sub0"); f.IsValid() {
+		in := f
+		if f.Kind() == reflect.Ptr {
+			f.Set(reflect.New(f.Type().Elem()))
+			in = f.Elem()
+		}
+		in.Field(0).SetInt(3)
+		in.Field(1).SetString("sub value")
+	}
+	if f := st.FieldByName("Subs0"); f.IsValid() {
+		f.Set(reflect.MakeSlice(f.Type(), 2, 2))
+		f.Index(1).Field(0).SetInt(5)
 	}
 	if f := st.FieldByName("u0"); f.IsValid() {
 		reflect.NewAt(f.Type(), unsafe.Pointer(f.UnsafeAddr())).Elem().SetInt(77)
